@@ -130,6 +130,20 @@ class Checker:
                     ctx.record("repr_does_not_evaluate_back", case, "eval(%r) gives %r" % (repr(s), back))
             except Exception as e:
                 ctx.record("repr_does_not_evaluate:%s" % type(e).__name__, case, "eval(%r) raised %s: %s" % (repr(s), type(e).__name__, e))
+            # values given as numpy numbers build the same Scalar, and its repr evaluates back as well
+            import numpy
+
+            for nv in (numpy.float64(x), numpy.float32(1.5), numpy.int64(3)):
+                ctx.ev()
+                sn = Scalar(nv, u, c)
+                if not (sn == Scalar(float(nv), u, c)):
+                    ctx.record("numpy_value_builds_other_scalar:%s" % type(nv).__name__, case, "Scalar(%r,%r,%r) = %r differs from the one built from float(value)" % (nv, u, c, sn))
+                try:
+                    back = eval(repr(sn), {"Scalar": Scalar, "inf": float("inf"), "nan": float("nan")})
+                    if not (back == sn):
+                        ctx.record("repr_does_not_evaluate_back:numpy value", case, "eval(%r) gives %r" % (repr(sn), back))
+                except Exception as e:
+                    ctx.record("repr_does_not_evaluate:numpy value:%s" % type(e).__name__, case, "eval(%r) raised %s: %s" % (repr(sn), type(e).__name__, e))
             if c != c_table:
                 ctx.nt_disjoint += 1
         # the forms that leave the category out, after every other category of the type has been used
